@@ -109,6 +109,14 @@ def gen(ctx):
         labels += L.flush(4)
         c = L.conf(emb=emb, mime=b"image/png", file=fil, limit=limit)
         items.append((L.Sched(conf=c, labels=labels, note=f"four loads on one connection, limit {limit}"), cf))
+    # hundreds of loads issued at once on one connection (more than any small bound on a queue): every one gets its picture
+    for ncall in (260, 400):
+        emb = picture(rng, 20)
+        cf = {"emb": emb, "mime": b"image/png", "file": None, "norp": False, "limit": 8, "fileack": False, "rperr": None,
+              "multi": [(f"song{i}.flac", f"art:some({hexs(emb)},{hexs(b'image/png')})") for i in range(ncall)]}
+        labels = ["D0", "S*", "D0"] + [f"a{i + 1}:" + hexs(uri) for i, (uri, _) in enumerate(cf["multi"])]
+        labels += ["S*", "D0"] * (ncall * 3 + 10) + L.flush(4)
+        items.append((L.Sched(conf=L.conf(emb=emb, mime=b"image/png", limit=8), labels=labels, note=f"{ncall} loads issued at once"), cf))
     # the connection ends while a later chunk is outstanding: the caller must get the failure, not "no album art" and not a truncated picture
     for fault in ("e", "cut", "G:" + hexs(b"what\n"), "r"):
         for src in ("emb+mime", "file"):
